@@ -49,3 +49,15 @@ Definition chk_stream (c : Z * operand) : bool :=
     | Ok p => negb (convert_okb e spats dims)
               || zl_eqb (byte_stream TCDM (pattern_words p spats)) (byte_stream e (nest dims))
     | Err _ => true end end.
+
+(* gemmx set_stride_patterns: (kind, serializer ratio, streamers[2].spatial_dims[-1], raw patterns, real result) *)
+From Snax Require Import Model.C02Gemmx.
+Definition slot_eqb (a b : spattern * src) : bool := sp_eqb (fst a) (fst b) && src_eqb (snd a) (snd b).
+Definition chk_custom (c : gkind * Z * Z * list spattern * option (list (spattern * src))) : bool :=
+  match c with
+  | (k, ser, sd2, ps, want) =>
+      match gemmx_customise k ser sd2 ps, want with
+      | Some a, Some b => list_eqb slot_eqb a b
+      | None, None => true
+      | _, _ => false end
+  end.
